@@ -1,7 +1,8 @@
 (* C10 -- Rejections are always reported as SyntaxError at the first offending token.
    Statements only. *)
 From Coq Require Import NArith List Bool.
-From PV Require Import Model.Errors Proofs.ErrorsProofs.
+From PV Require Import Spec.Cfg Model.Table Model.LRDriver Validators.TableStruct Validators.TableProgress
+  Model.Errors Proofs.ErrorsProofs Proofs.LRNoCrashProofs.
 Import ListNotations.
 Local Open Scope N_scope.
 
@@ -19,6 +20,20 @@ Print Assumptions C10_linecol.
 Theorem C10_eof : forall (w : list N) (p : N), is_eof w p = true <-> p = N.of_nat (length w).
 Proof. exact eof_iff. Qed.
 Print Assumptions C10_eof.
+
+(* no other exception from the LR driver: for every table that passes table_struct and
+   table_progress (both run on the impl's real table), every scanner, layout function, option
+   setting, input, start position and amount of fuel, the driver model never ends in LRCrash
+   (the model's stand-in for KeyError / IndexError / AttributeError inside Parser.parse): its
+   outcomes are a result, SyntaxError, DisambiguationError, a SyntaxError of the LAYOUT
+   sub-parser, or running out of fuel. *)
+Theorem C10_lr_no_crash :
+  forall g tb start skipws next_token stop_id consume_input in_layout,
+    table_struct g tb start = true -> table_progress g tb stop_id = true ->
+    forall fuel pos,
+      is_crash (lr_parse g tb skipws next_token stop_id consume_input in_layout fuel pos) = false.
+Proof. exact lr_no_crash. Qed.
+Print Assumptions C10_lr_no_crash.
 
 (* NOT PROVED (partial; decided per generated case against an Earley reference): the error
    position is the start of the first token that cannot extend any sentence prefix, it is the
